@@ -127,7 +127,10 @@ class Ctx:
         return quick if self.quick else thorough
 
     def workdir(self, sub=''):
-        d = os.path.join(WORK, self.pid + ('-' + sub if sub else ''))
+        d = os.path.join(WORK, self.pid + ('-' + sub if sub else ''), '%s-%s' % (self.tier, self.seed))
+        if os.path.isdir(d):       # files kept from an earlier run of the same tier/seed (violating cases) are stale now
+            import shutil
+            shutil.rmtree(d, ignore_errors=True)
         os.makedirs(d, exist_ok=True)
         return d
 
